@@ -242,6 +242,17 @@ def decode_window(f, cur, sizes, bufnames, floor_from_facts=True, fb=None):
 
     def strip_cur(fm):
         return form(fm[0], [s for s in fm[1] if s != cur])
+    # a const pointer local that names a position in the buffer (`const uint8_t *const fields = data + offset`) stands for that
+    # position — as long as the cursor it was computed from is never written in the function (otherwise it would go stale)
+    alias = {}
+    cur_written = any((e.node.get("k") in ("bin", "opcall") and is_assign(e.node) and key_of(_ap(e.node)[0]) == cur) or (e.node.get("k") == "un" and "++" in e.node.get("op", "") and key_of(e.node.get("v")) == cur) for e in f.stmts())
+    if not cur_written:
+        for e in f.stmts():
+            for v in (e.node.get("vars", []) if e.node.get("k") == "decl" else []):
+                if (v.get("t") or "").rstrip().endswith("*const") and isinstance(v.get("init"), dict):
+                    fm0 = lin(v["init"])
+                    if fm0 is not None and len([s_ for s_ in fm0[1] if s_ in bufnames]) == 1 and list(fm0[1]).count(cur) == 1:
+                        alias[v["n"]] = form(fm0[0], [s_ for s_ in fm0[1] if s_ not in bufnames])
 
     def edge(c, truth):
         return guard_ops(c, truth, cur, sizes)
@@ -268,9 +279,12 @@ def decode_window(f, cur, sizes, bufnames, floor_from_facts=True, fb=None):
             if fa is not None and fn_ is not None and list(fa[1]).count(cur) == 1 and show(strip_casts(tot)) in {s.replace(".size()", "") for s in sizes} | sizes:
                 rest = strip_cur(fa)
                 ops.append(("atleast", form(rest[0] + fn_[0], list(rest[1]) + list(fn_[1]))))
-        elif k in ("call", "mcall") and last(n.get("callee", "")) in ("readUint16", "readUint32") and len(n.get("args", [])) == 2 and is_buf(n["args"][0]):
+        elif k in ("call", "mcall") and last(n.get("callee", "")) in ("readUint16", "readUint32") and len(n.get("args", [])) == 2 and (is_buf(n["args"][0]) or show(strip_casts(n["args"][0])) in alias):
             w = 2 if last(n["callee"]).endswith("16") else 4
-            fa = lin(n["args"][1])
+            fa = lin(inl(n["args"][1]))
+            if not is_buf(n["args"][0]) and fa is not None:
+                af = alias[show(strip_casts(n["args"][0]))]      # `p = buf + cur + c`: p[k] is buf[cur + c + k]
+                fa = form(fa[0] + af[0], list(fa[1]) + list(af[1]))
             if fa is not None and list(fa[1]).count(cur) == 1:
                 rest = strip_cur(fa)
                 ops.append(("need", form(rest[0] + w, rest[1]), "%s(%s, %s)" % (last(n["callee"]), show(n["args"][0]), show(n["args"][1]))))
@@ -392,9 +406,13 @@ def r1(ctx, r):
     r.instance()
     ok = len(tb) == 1
     if ok:
-        op, l, rr = common.cmp_parts(tb[0].cond)
-        fl = lin(l)
-        ok = op == ">" and fl is not None and sorted(fl[1]) == ["needed", "offset"] and fl[0] == 0 and key_of(rr) == "total" and any(x.kind == "stmt" and x.node.get("k") == "throw" for x in _reach_until_ret(cb, tb[0].succs[0]))
+        # the test compares offset + needed with total; whichever operator and operand order it uses, the edge on which
+        # `offset + needed > total` holds must end in the throw and the other edge must not
+        co = common.cmp_oriented(tb[0].cond, lambda x: key_of(x) == "total")
+        fl = lin(co[1]) if co else None
+        bad = {">": 0, "<=": 1}.get(co[0]) if co else None          # successor index taken when the range does NOT fit
+        throws = lambda si: any(x.kind == "stmt" and x.node.get("k") == "throw" for x in _reach_until_ret(cb, tb[0].succs[si]))
+        ok = bad is not None and len(tb[0].succs) == 2 and fl is not None and sorted(fl[1]) == ["needed", "offset"] and fl[0] == 0 and throws(bad) and not throws(1 - bad)
         ok = ok and "size_t" in cb.params[1]["t"] or ok and "long" in cb.params[1]["t"]
     r.expect(ok, cb, None, "checkBounds", "DnsMessage::checkBounds is not `offset + needed > total → throw`", okdesc="checkBounds: offset + needed > total → throw DnsParseException")
     # every caller passes a 16-bit-bounded `needed` (constants, uint8/uint16 values): offset + needed cannot wrap
@@ -444,6 +462,11 @@ def r1(ctx, r):
             for (e, what) in w.checked:
                 r.ok("%s: %s inside the window (%s/%s)" % (last(f.name), what, cur, sorted(sizes)[0]))
             for (e, need, have, what) in w.violations:
+                # a read inside a range-for over a fixed list of fields consumes a window that was established ONCE in front of the
+                # loop; whether it suffices depends on the trip count, which the window domain does not carry: not a verdict
+                inloop = [b for (b, rng_, el_) in _range_loops(g) if search(g, ("block", b.succs[0]), lambda x, e=e: x is e, stop=lambda x, b=b: x.block is b, eh=False) is not None]
+                if inloop and not any(x.kind == "stmt" and x.node.get("k") in ("call", "mcall") and last(x.node.get("callee", "")) == "checkBounds" and search(g, ("block", inloop[0].succs[0]), lambda y, x=x: y is x, stop=lambda y, b=inloop[0]: y.block is b, eh=False) is not None for x in g.stmts()):
+                    raise AnalysisBroken("%s performs `%s` inside a range-for whose window was established in front of the loop: the trip count is outside what the window analysis tracks" % (last(f.name), what))
                 r.fail(f, e, "outside window: %s" % what.split("(")[0] + ("(" + what.split("(", 1)[1] if "(" in what else ""), "%s performs `%s`, which needs %s byte(s) from the cursor `%s`, but only %s established since the cursor last moved: "
                        "a truncated or crafted message makes the decoder read outside the buffer" % (last(f.name) + (" (lambda)" if g is not f else ""), what, show_form(need) if not is_top(need) else "a bound the analysis cannot establish", cur, show_form(have)))
     if total < 36:
@@ -781,12 +804,31 @@ def r4(ctx, r):
         els = [x for b in hb for x in _reach_until_ret(pr, b.id)]
         cq = [x for x in els if x.kind == "stmt" and x.node.get("k") == "mcall" and last(x.node.get("callee", "")) == "completeQuery"]
         r.instance()
-        r.expect(len(cq) >= 1 and any("error" in show(x.node) for x in cq), pr, None, "pending query not completed", "after a parse failure the pending query is not completed with an error (the caller waits for the full timeout)", okdesc="parse failure → completeQuery(key, error)")
-        # the id is read from the raw bytes only behind size >= 2
+        # completed WITH AN ERROR: the second argument is an exception_ptr made by std::make_exception_ptr, handed over as a
+        # temporary or through a local initialised with it (whatever the local is called)
+        def is_error(a):
+            a = strip_views(a) or {}
+            if a.get("k") == "var":
+                ds = [v for d in pr.stmts() if d.node.get("k") == "decl" for v in d.node["vars"] if v.get("d") == a.get("d") and v["n"] == a["n"]]
+                a = strip_views(ds[0].get("init")) if len(ds) == 1 and ds[0].get("init") is not None else {}
+            return any(x.get("k") == "call" and last(x.get("callee", "")) == "make_exception_ptr" for x in walk(a or {}))
+        r.expect(len(cq) >= 1 and any(len(x.node.get("args", [])) >= 2 and is_error(x.node["args"][1]) for x in cq), pr, None, "pending query not completed", "after a parse failure the pending query is not completed with an error (the caller waits for the full timeout)", okdesc="parse failure → completeQuery(key, error)")
+        # the id is read from the raw bytes only behind size >= 2: the branches on `size` whose one edge every path to the read takes
+        # (exception edges included — the reads sit in the handler) bound it from below, whichever way the test and the branch are written
         rd = [(e, k) for (e, b, k, w) in const_reads(pr, {"data"})]
         r.instance()
-        sb = [b for b in pr.blocks.values() if b.cond is not None and common.cmp_parts(b.cond) and key_of(common.cmp_parts(b.cond)[1]) == "size" and const_value(common.cmp_parts(b.cond)[2]) == 2 and common.cmp_parts(b.cond)[0] == ">="]
-        r.expect(len(rd) == 2 and len(sb) == 1 and all(dominated_by_edge(pr, e, sb[0], 0, eh=True) for e, k in rd), pr, None, "query id read", "the handler reads the query id from the raw bytes without `size >= 2`", okdesc="id read behind size >= 2")
+
+        def size_lo(e):
+            facts_ = []
+            for b in pr.blocks.values():
+                co = common.cmp_oriented(b.cond, lambda x: const_value(x) is not None) if b.cond is not None and len(b.succs) == 2 and b.edge_label(0) is True else None
+                if co and key_of(co[1]) == "size":
+                    for si, truth in ((0, True), (1, False)):
+                        if b.succs[si] is not None and dominated_by_edge(pr, e, b, si, eh=True):
+                            facts_.append(({"k": "bin", "op": co[0], "lhs": strip_casts(co[1]), "rhs": co[2]}, truth))
+            from ..finite import interval_of
+            return interval_of(facts_, "size")[0] or 0
+        r.expect(len(rd) == 2 and all(size_lo(e) >= k + 1 for e, k in rd), pr, rd[0][0] if rd else None, "query id read", "the handler reads the query id from the raw bytes without `size >= 2`", okdesc="id read behind size >= 2")
     # everything that can throw in the whole function is inside the try
     out = [e for e in pr.stmts() if "root" in e.raw and not e.try_id and not e.catch_id and e.node.get("k") in ("mcall", "call", "decl", "throw")]
     r.instance()
@@ -829,6 +871,8 @@ def r5(ctx, r):
     def key_sources(f, knode, depth=0):
         """[(function, True/False)] — one verdict per calling context in which the key expression `knode` of f is evaluated"""
         kn = strip_views(knode) or {}
+        if kn.get("k") == "call" and kn.get("callee") == FQ and len(kn.get("args", [])) == 1 and (strip_views(kn["args"][0]) or {}).get("parm") is not None:
+            return [(f, True)]        # the key is built in place: cache_->get(DnsCacheKey::fromQuestion(question))
         if kn.get("k") != "var" or depth > 3:
             return [(f, False)]
         if kn.get("parm") is not None:
@@ -879,7 +923,29 @@ def r6(ctx, r):
     for g in sets:
         ed = [v for e in g.stmts() if e.node.get("k") == "decl" for v in e.node["vars"] if v["n"] == "expiration"]
         r.instance()
-        ok = len(ed) == 1 and "steady_clock::now()" in show(ed[0]["init"]) and "customTtl" in show(ed[0]["init"]) and "_ttl" in show(ed[0]["init"])
+        # expiration = now() + L, where L selects between the TTL parameter (when it is positive) and the cache-wide default — as a
+        # conditional expression or as a local that is declared with one of the two and re-assigned behind the test
+        ok = len(ed) == 1 and isinstance(ed[0].get("init"), dict)
+        if ok:
+            init = strip_views(ed[0]["init"]) or {}
+            ops = (init.get("args") if init.get("k") == "opcall" and init.get("op") == "+" else [init.get("lhs"), init.get("rhs")] if init.get("k") == "bin" and init.get("op") == "+" else None) or []
+            nows = [o for o in ops if "steady_clock::now()" in show(o)]
+            rest = [o for o in ops if o not in nows]
+            ok = len(ops) == 2 and len(nows) == 1 and len(rest) == 1
+            if ok:
+                ch = _choice(g, rest[0])
+                L = strip_views(rest[0]) or {}
+                if ch is None and L.get("k") == "var" and L.get("parm") is None:
+                    raise AnalysisBroken("ExpiringCache::set: the lifetime `%s` added to now() is computed in a shape this rule does not know" % show(L))
+                ok = False
+                if ch is not None:
+                    co = common.cmp_oriented(ch[0], lambda x: const_value(x) is not None)
+                    tv, fv = strip_views(ch[1]) or {}, strip_views(ch[2]) or {}
+                    cl = (strip_casts(co[1]) or {}) if co else {}
+                    pos = co is not None and (co[0], const_value(co[2])) in ((">", 0), (">=", 1)) and cl.get("k") == "mcall" and last(cl.get("callee", "")) == "count"
+                    subj = strip_views(cl.get("obj")) if pos else None
+                    ok = bool(pos and subj and subj.get("k") == "var" and subj.get("parm") is not None and tv.get("k") == "var" and tv.get("d") == subj.get("d") and tv.get("n") == subj.get("n")
+                              and fv.get("k") == "member" and last(fv.get("n", "")) == "_ttl")
         lr.expect(ok, g, None, "expiration computation", "set() does not compute expiration = now + (customTtl > 0 ? customTtl : default)", okdesc="expiration = now + (ttl > 0 ? ttl : default)")
         # an unconditional store of the fresh expiration: whole-entry assignment / insert_or_assign / field assignment, on every path to the exit
         stores = []
@@ -989,6 +1055,33 @@ def r6(ctx, r):
     lr.expect(len(rt) == 1 and soa_min(rt[0]), cn, None, "negative TTL", "the negative-caching TTL is not min(SOA.minimum, SOA ttl)", okdesc="negative TTL = min(SOA minimum, ttl)")
 
 
+def _choice(f, n):
+    """(condition, value when it holds, value when it does not) that an expression selects between: a conditional expression, or a
+    local with exactly two definitions — its declaration and ONE assignment sitting alone behind one edge of a two-way branch
+    (`T x = a; if (c) x = b;` is `c ? b : a`).  None for anything else"""
+    n = strip_views(n) or {}
+    if n.get("k") == "cond":
+        return n.get("c"), n.get("t"), n.get("f")
+    if n.get("k") != "var" or n.get("parm") is not None:
+        return None
+    ds = [v for e in f.stmts() if e.node.get("k") == "decl" for v in e.node["vars"] if v.get("d") == n.get("d") and v["n"] == n["n"]]
+    ws = [e for e in f.stmts() if e.node.get("k") in ("bin", "opcall") and is_assign(e.node) and (strip_casts(_ap(e.node)[0]) or {}).get("d") == n.get("d") and key_of(_ap(e.node)[0]) == n["n"]]
+    if len(ds) != 1 or not isinstance(ds[0].get("init"), dict) or len(ws) != 1 or ws[0].node.get("op") != "=" or "root" not in ws[0].raw:
+        return None
+    wb = ws[0].block
+    if len(wb.preds) != 1 or any("root" in e.raw and e is not ws[0] for e in wb.elems if e.kind == "stmt"):
+        return None
+    b = f.blocks[wb.preds[0]]
+    if b.cond is None or len(b.succs) != 2 or b.edge_label(0) is not True or wb.id not in b.succs or b.succs[0] == b.succs[1]:
+        return None
+    # both arms meet again (the assignment is the whole arm) and the use comes after the meeting point
+    other = b.succs[1] if b.succs[0] == wb.id else b.succs[0]
+    if [s_ for s_ in wb.succs if s_ is not None] != [other]:
+        return None
+    rhs = _ap(ws[0].node)[2]
+    return (b.cond, rhs, ds[0]["init"]) if b.succs[0] == wb.id else (b.cond, ds[0]["init"], rhs)
+
+
 def _range_loops(f):
     """[(loop head, range expression, declaration of the loop's element variable)] of the range-for loops of f"""
     out = []
@@ -1040,10 +1133,20 @@ def _helper_folds(h, i):
 
 def r7(ctx, r):
     f = dm(ctx, "encodeName")
-    lb = [b for b in f.blocks.values() if b.cond is not None and common.cmp_parts(b.cond) and "label.length()" in show(common.cmp_parts(b.cond)[1]) and common.cmp_parts(b.cond)[0] == ">"]
-    pushes = [e for e in f.stmts() if e.node.get("k") == "mcall" and last(e.node.get("callee", "")) == "push_back" and "label.length()" in show(e.node)]
+    # the length octet: the one value pushed into `encoded` that is not the constant root octet; the label-size test is the comparison
+    # of THAT expression (label.length(), a local holding the label's length, …) with 63, and the push lies behind its passing edge
+    pushes = [e for e in f.stmts() if e.node.get("k") == "mcall" and last(e.node.get("callee", "")) == "push_back" and key_of(e.node.get("obj")) == "encoded" and e.node.get("args") and const_value(strip_casts(e.node["args"][0])) is None]
+    lenx = show(strip_casts(pushes[0].node["args"][0])) if len(pushes) == 1 else None
+
+    def label_test(b):
+        co = common.cmp_oriented(b.cond, lambda x: const_value(x) is not None) if b.cond is not None and len(b.succs) == 2 else None
+        if not co or lenx is None or show(strip_casts(co[1])) != lenx:
+            return None
+        cv = const_value(co[2])
+        return {">": (cv, 1), ">=": (cv - 1, 1), "<=": (cv, 0), "<": (cv - 1, 0)}.get(co[0])      # (largest length let through, passing edge)
+    lb = [b for b in f.blocks.values() if label_test(b) and label_test(b)[0] >= 1]       # (`length > 0` / `!empty` tests are not the limit)
     r.instance()
-    r.expect(len(lb) == 1 and len(pushes) == 1 and dominated_by_edge(f, pushes[0], lb[0], 1, eh=False) and ("DNS_MAX_LABEL_SIZE" in show(lb[0].cond) or const_value(common.cmp_parts(lb[0].cond)[2]) == 63), f, None, "encoder label limit",
+    r.expect(len(lb) == 1 and len(pushes) == 1 and dominated_by_edge(f, pushes[0], lb[0], label_test(lb[0])[1], eh=False) and label_test(lb[0])[0] == 63, f, None, "encoder label limit",
              "encodeName emits a label without the 63-byte test (its length byte would collide with the compression marker)", okdesc="encoder: label <= 63")
     # the wire-size test: `encoded.size()` against a constant, whichever way round and with whichever of the four operators; `lim` is
     # the largest size it lets through and `pe` the successor taken when the name is let through
@@ -1090,7 +1193,16 @@ def r7(ctx, r):
     if ok:
         ws = sorted([e for e in bq[0].stmts() if e.node.get("k") in ("call", "mcall") and last(e.node.get("callee", "")) in ("writeUint16", "writeUint32") and "root" in e.raw], key=lambda e: (e.line, e.idx))
         seq = [show(e.node["args"][1]) for e in ws]
-        ok = len(seq) >= 8 and "id" in seq[0] and "flags" in seq[1].lower() and "qtype" in seq[-2] and "qclass" in seq[-1]
+        # the first field written is the query id: the id parameter itself or a local computed from it (`id != 0 ? id : generate…()`)
+        def from_param(n, pname):
+            n = strip_casts(n) or {}
+            if n.get("k") != "var":
+                return False
+            if n.get("parm") is not None:
+                return n["n"] == pname
+            ds = [v for d in bq[0].stmts() if d.node.get("k") == "decl" for v in d.node["vars"] if v.get("d") == n.get("d") and v["n"] == n["n"]]
+            return len(ds) == 1 and any(x.get("k") == "var" and x.get("parm") is not None and x["n"] == pname for x in walk(ds[0].get("init") or {}))
+        ok = len(seq) >= 8 and from_param(ws[0].node["args"][1], "id") and "flags" in seq[1].lower() and "qtype" in seq[-2] and "qclass" in seq[-1]
     r.expect(ok, bq[0] if bq else DM, None, "query layout", "buildQuery does not write id, flags, four counts, then per question type and class in the order parseHeader/parseQuestion read them", okdesc="query layout matches the decoder")
 
 
@@ -1111,11 +1223,12 @@ def r8(ctx, r):
         for (c, t) in facts:
             s = show(c)
             for x in walk(c):
-                if x.get("k") == "enum" and "DnsType" in x["n"] and ("rr.type ==" in s) and t:
+                # the record IS of that type on this path: `rr.type == T` holds, or `rr.type != T` (a guard clause) does not
+                if x.get("k") == "enum" and "DnsType" in x["n"] and (("rr.type ==" in s and t) or ("rr.type !=" in s and not t and (common.cmp_parts(strip_casts(c)) or ("",))[0] == "!=")):
                     types.add(last(x["n"]))
             if "rr.rdata[" in s:
                 content = True
-            if "rr.rdata.size() != " in s and t:
+            if ("rr.rdata.size() != " in s and t) or ("rr.rdata.size() == " in s and not t and (common.cmp_parts(strip_casts(c)) or ("",))[0] == "=="):
                 lengthonly = True
         # `a || b` type tests do not dominate through one edge: fall back to the enclosing condition text
         if not types:
@@ -1214,12 +1327,31 @@ def r9(ctx, r):
     r.expect(len(nmo) == 1 and const_value(strip_casts(nmo[0].get("init") or {})) == 2, dm(ctx, "parseMxRecord"), None, "MX exchange offset", "the MX exchange name does not start at RDATA offset 2", okdesc="MX exchange @2")
     soa = dm(ctx, "parseSoaRecord")
     got = [(t, w) for (t, w, o) in field_reads(soa, "record.")]
+    # fields filled by a loop over a fixed list of their addresses (`for (uint32_t *p : {&record.serial, …}) { *p = readUint32(buf, off); off += 4; }`)
+    # are read in list order, one reader call and one advance per element
+    loop_advs, loop_once = [], []
+    for (b, rng, el) in _range_loops(soa):
+        rd_ = [v for e in soa.stmts() if e.node.get("k") == "decl" for v in e.node["vars"] if (rng or {}).get("k") == "var" and v.get("d") == rng.get("d") and v["n"] == rng.get("n")]
+        vals = (rd_[0].get("init") or {}).get("vals") if len(rd_) == 1 and (rd_[0].get("init") or {}).get("k") == "ilist" else None
+        if not vals or el is None or not all(x.get("k") == "un" and x.get("op") == "&" and (x.get("v") or {}).get("k") == "member" for x in vals):
+            continue
+        body = [e for e in soa.stmts() if "root" in e.raw and search(soa, ("block", b.succs[0]), lambda x, e=e: x is e, stop=lambda x, b=b: x.block is b, eh=False) is not None]
+        ws_ = [e for e in body if asg(e.node) and (strip_casts(asg(e.node)[0]) or {}).get("k") == "un" and asg(e.node)[0].get("op") == "*" and (strip_casts(asg(e.node)[0]["v"]) or {}).get("d") == el.get("d")]
+        rds = [x for e in ws_ for x in walk(asg(e.node)[1]) if x.get("k") in ("call", "mcall") and last(x.get("callee", "")) in ("readUint16", "readUint32")]
+        adv_ = [const_value(strip_casts(e.node["rhs"])) for e in body if e.node.get("k") == "bin" and e.node.get("op") == "+=" and key_of(e.node["lhs"]) == "offset"]
+        if len(ws_) == 1 and len(rds) == 1 and len(adv_) == 1:
+            got += [(show(x["v"]), last(rds[0]["callee"])) for x in vals]
+            loop_advs += adv_ * len(vals)
+            loop_once = loop_once + adv_
     r.instance()
     r.expect(got == [("record.serial", W32), ("record.refresh", W32), ("record.retry", W32), ("record.expire", W32), ("record.minimum", W32)], soa, None, "SOA layout", "parseSoaRecord reads %s (expected SERIAL REFRESH RETRY EXPIRE MINIMUM as 32-bit fields)" % got,
              okdesc="SOA: five 32-bit fields in order")
     advs = [const_value(strip_casts(e.node["rhs"])) for e in sorted(soa.stmts(), key=lambda e: (e.line, e.idx)) if e.node.get("k") == "bin" and e.node.get("op") == "+=" and key_of(e.node["lhs"]) == "offset" and const_value(strip_casts(e.node["rhs"])) is not None]
     r.instance()
-    r.expect(advs == [4, 4, 4, 4], soa, None, "SOA advances", "the SOA numeric fields are not 4 bytes apart (%s)" % advs, okdesc="SOA fields 4 bytes apart")
+    for a_ in loop_once:
+        advs.remove(a_)          # the loop body's advance was listed once; it runs once per field
+    advs = advs + loop_advs      # (the advance behind the last field of a loop is dead)
+    r.expect(advs == [4, 4, 4, 4] or (bool(loop_advs) and advs == [4, 4, 4, 4, 4]), soa, None, "SOA advances", "the SOA numeric fields are not 4 bytes apart (%s)" % advs, okdesc="SOA fields 4 bytes apart")
     nap = dm(ctx, "parseNaptrRecord")
     got = [(t, w) for (t, w, o) in field_reads(nap, "record.")]
     r.instance()
